@@ -22,9 +22,12 @@ func init() { Registry["C05"] = checkC05 }
 // what the caller passed, so the table does not depend on how the code is split up.
 
 type pdesc struct {
-	kind string // "flag" | "list" | "raw" | "lowered" | "const"
+	kind string // "flag" | "list" | "raw" | "lowered" | "const" | "record"
 	name string // config field name for flag/list
 	b    bool
+	// fields of a record value built by a helper (domainRule{verdict: true, exceptions: list}),
+	// by field index
+	fields map[int]pdesc
 }
 
 type penv map[*ssa.Parameter]pdesc
@@ -34,6 +37,8 @@ type peval struct {
 	raw    *ssa.Parameter  // the predicate's domain parameter
 	err    string
 	steps  int
+	// blocks executed so far (to read a record back from the stores on the path taken)
+	executed map[*ssa.BasicBlock]bool
 }
 
 func (e *peval) desc(v ssa.Value, env penv) pdesc {
@@ -62,7 +67,75 @@ func (e *peval) desc(v ssa.Value, env penv) pdesc {
 			return pdesc{kind: "lowered"}
 		}
 	}
+	// a field of a record: r.verdict with r a parameter bound to a record, read directly
+	// (ssa.Field) or through the local the parameter was spilled to
+	switch x := v.(type) {
+	case *ssa.Field:
+		if d := e.desc(x.X, env); d.kind == "record" {
+			if fd, ok := d.fields[x.Field]; ok {
+				return fd
+			}
+		}
+	case *ssa.UnOp:
+		if x.Op == token.MUL {
+			if fa, ok := x.X.(*ssa.FieldAddr); ok {
+				if al, ok := fa.X.(*ssa.Alloc); ok {
+					for _, st := range eng.CellStores(al) {
+						if d := e.desc(st.Val, env); d.kind == "record" {
+							if fd, ok := d.fields[fa.Field]; ok {
+								return fd
+							}
+						}
+					}
+				}
+			}
+			// a record local read back as a whole
+			if al, ok := x.X.(*ssa.Alloc); ok {
+				if _, isStruct := al.Type().(*types.Pointer).Elem().Underlying().(*types.Struct); isStruct {
+					if d, ok := e.recordOf(al, env); ok {
+						return d
+					}
+				}
+			}
+		}
+	case *ssa.Call:
+		// a module helper that returns a record chosen by the configuration (acceptRule())
+		if g := eng.StaticCallee(x.Common()); g != nil && eng.InModule(g) && len(g.Blocks) > 0 && g.Signature.Results().Len() == 1 {
+			if _, isStruct := g.Signature.Results().At(0).Type().Underlying().(*types.Struct); isStruct {
+				nenv := penv{}
+				for i, prm := range g.Params {
+					if i < len(x.Call.Args) {
+						nenv[prm] = e.desc(x.Call.Args[i], env)
+					}
+				}
+				if ret, ok := e.exec(g, nenv); ok {
+					return e.desc(eng.ReturnResults(ret)[0], nenv)
+				}
+			}
+		}
+	}
 	return pdesc{kind: "?"}
+}
+
+// recordOf describes the record held in the local al from the field stores executed so far.
+func (e *peval) recordOf(al *ssa.Alloc, env penv) (pdesc, bool) {
+	d := pdesc{kind: "record", fields: map[int]pdesc{}}
+	found := false
+	for _, ref := range *al.Referrers() {
+		fa, ok := ref.(*ssa.FieldAddr)
+		if !ok || fa.Referrers() == nil {
+			continue
+		}
+		for _, r2 := range *fa.Referrers() {
+			st, ok := r2.(*ssa.Store)
+			if !ok || !e.executed[st.Block()] {
+				continue
+			}
+			d.fields[fa.Field] = e.desc(st.Val, env)
+			found = true
+		}
+	}
+	return d, found
 }
 
 // boolOf evaluates a boolean SSA value; prev is the block control came from (for phis).
@@ -74,6 +147,14 @@ func (e *peval) boolOf(v ssa.Value, env penv, prev *ssa.BasicBlock) bool {
 	case *ssa.UnOp:
 		if x.Op == token.NOT {
 			return !e.boolOf(x.X, env, prev)
+		}
+	case *ssa.BinOp:
+		if (x.Op == token.NEQ || x.Op == token.EQL) && isBool(x.X.Type()) {
+			a, b := e.boolOf(x.X, env, prev), e.boolOf(x.Y, env, prev)
+			if x.Op == token.NEQ {
+				return a != b
+			}
+			return a == b
 		}
 	case *ssa.Phi:
 		for i, p := range x.Block().Preds {
@@ -128,7 +209,42 @@ func (e *peval) boolOf(v ssa.Value, env penv, prev *ssa.BasicBlock) bool {
 	return false
 }
 
+// exec walks fn under the assignment to the return it reaches.
+func (e *peval) exec(fn *ssa.Function, env penv) (*ssa.Return, bool) {
+	if e.executed == nil {
+		e.executed = map[*ssa.BasicBlock]bool{}
+	}
+	b := fn.Blocks[0]
+	var prev *ssa.BasicBlock
+	for e.err == "" {
+		e.steps++
+		if e.steps > 500 {
+			e.err = "evaluation did not terminate (loop)"
+			return nil, false
+		}
+		e.executed[b] = true
+		switch x := b.Instrs[len(b.Instrs)-1].(type) {
+		case *ssa.Return:
+			return x, true
+		case *ssa.Jump:
+			prev, b = b, b.Succs[0]
+		case *ssa.If:
+			if e.boolOf(x.Cond, env, prev) {
+				prev, b = b, b.Succs[0]
+			} else {
+				prev, b = b, b.Succs[1]
+			}
+		default:
+			e.err = "unexpected terminator"
+		}
+	}
+	return nil, false
+}
+
 func (e *peval) run(fn *ssa.Function, env penv) bool {
+	if e.executed == nil {
+		e.executed = map[*ssa.BasicBlock]bool{}
+	}
 	b := fn.Blocks[0]
 	var prev *ssa.BasicBlock
 	for e.err == "" {
@@ -137,6 +253,7 @@ func (e *peval) run(fn *ssa.Function, env penv) bool {
 			e.err = "evaluation did not terminate (loop)"
 			return false
 		}
+		e.executed[b] = true
 		switch x := b.Instrs[len(b.Instrs)-1].(type) {
 		case *ssa.Return:
 			return e.boolOf(eng.ReturnResults(x)[0], env, prev)
@@ -210,6 +327,43 @@ func checkC05(c *Ctx) {
 		}
 		if f := eng.LoadedField(call.Call.Args[0]); f != nil {
 			lowered[f.Name()] = true
+			return
+		}
+		// the lists lower-cased one after the other in a loop over a literal collection of them
+		// (for _, l := range c.SMTP.domainLists() { SliceToLower(l) }): every list placed in
+		// that collection is lower-cased (the slices share their backing arrays with the fields)
+		if u, ok := call.Call.Args[0].(*ssa.UnOp); ok && u.Op == token.MUL {
+			if ia, ok := u.X.(*ssa.IndexAddr); ok && isRangeCounter(ia.Index) {
+				colls := []ssa.Value{ia.X}
+				if cc, isCall := ia.X.(*ssa.Call); isCall {
+					if rets, hg := eng.ReturnedValues(cc, 0); hg != nil {
+						colls = rets
+					}
+				}
+				for _, cv := range colls {
+					sl, ok := cv.(*ssa.Slice)
+					if !ok {
+						continue
+					}
+					al, ok := sl.X.(*ssa.Alloc)
+					if !ok {
+						continue
+					}
+					for _, ref := range *al.Referrers() {
+						ea, ok := ref.(*ssa.IndexAddr)
+						if !ok || ea.Referrers() == nil {
+							continue
+						}
+						for _, r2 := range *ea.Referrers() {
+							if st, ok := r2.(*ssa.Store); ok {
+								if f := eng.LoadedField(st.Val); f != nil {
+									lowered[f.Name()] = true
+								}
+							}
+						}
+					}
+				}
+			}
 		}
 	})
 	var names []string
@@ -315,7 +469,21 @@ func checkC05(c *Ctx) {
 				})
 			})
 		}
+		// the loop may be the library's: slices.ContainsFunc(list, func(pattern) bool { return
+		// MatchWithWildcards(pattern, lowered) }), the predicate returning the negation
+		handledOrigin := false
+		if match == nil {
+			if why, site, found := c.c05OriginContainsFunc(fn, low); found {
+				if why != "" {
+					r.Bad("C05/TABLE/predicates", cons, site, "%s", why)
+				} else {
+					r.Ok("C05/TABLE/predicates", cons, site, "refuses exactly when slices.ContainsFunc finds an element of RejectOriginDomains that MatchWithWildcards(element, lower(domain)) accepts")
+				}
+				handledOrigin = true
+			}
+		}
 		switch {
+		case handledOrigin:
 		case match == nil:
 			r.Bad("C05/TABLE/predicates", cons, p.Pos(fn.Pos()), "no wildcard match against RejectOriginDomains")
 		case viaHelper != nil:
@@ -501,6 +669,58 @@ func (c *Ctx) c05ArgLower(fn *ssa.Function, dom *ssa.Parameter) *ssa.Call {
 		}
 	}
 	cons := "policy." + fn.Name()
+	// `domain = strings.ToLower(domain)` with the variable captured by a closure: the parameter
+	// lives in a cell; the raw value may be read only to be lower-cased, and the lowered value
+	// must be back in the cell before anything else reads it or a closure is made over it
+	if low == nil && len(other) == 1 && dom.Referrers() != nil {
+		for _, ref := range *dom.Referrers() {
+			st, ok := ref.(*ssa.Store)
+			if !ok {
+				continue
+			}
+			cell, ok := st.Addr.(*ssa.Alloc)
+			if !ok {
+				continue
+			}
+			var lowSt *ssa.Store
+			bad := ""
+			for _, cr := range *cell.Referrers() {
+				if s2, ok := cr.(*ssa.Store); ok && s2 != st && s2.Addr == ssa.Value(cell) {
+					if lc, ok := s2.Val.(*ssa.Call); ok && eng.CalleeName(lc.Common()) == "strings.ToLower" {
+						if ld, ok := lc.Call.Args[0].(*ssa.UnOp); ok && ld.X == ssa.Value(cell) {
+							lowSt, low = s2, lc
+							continue
+						}
+					}
+					bad = "the domain variable is assigned something other than its lower-cased value at " + p.InstrPos(s2)
+				}
+			}
+			if lowSt == nil {
+				break
+			}
+			for _, cr := range *cell.Referrers() {
+				switch y := cr.(type) {
+				case *ssa.UnOp:
+					if y == low.Call.Args[0] {
+						continue
+					}
+					if !eng.Dominates(lowSt, y) {
+						bad = "the raw domain is read at " + p.InstrPos(y) + " before it is lower-cased"
+					}
+				case *ssa.MakeClosure:
+					if !eng.Dominates(lowSt, y) {
+						bad = "a closure is made over the domain variable at " + p.InstrPos(y) + " before it is lower-cased"
+					}
+				}
+			}
+			if bad != "" {
+				r.Bad("C05/LOWER/arg", cons, p.Pos(fn.Pos()), "%s", bad)
+			} else {
+				r.Ok("C05/LOWER/arg", cons, p.InstrPos(low), "domain is replaced by strings.ToLower(domain) before any other use")
+			}
+			return low
+		}
+	}
 	switch {
 	case low == nil:
 		r.Bad("C05/LOWER/arg", cons, p.Pos(fn.Pos()), "the domain parameter is never lower-cased: mixed-case addresses escape the (lower-cased) lists")
@@ -744,4 +964,107 @@ func (c *Ctx) policyGuard(rule, cons string, fn *ssa.Function, target ssa.Instru
 	}
 	_ = deferV
 	r.Ok(rule, cons, p.InstrPos(pcall), "unreachable from %s()==false; the policy call is bypassed only when extAction != Defer", shortFn(policyFn))
+}
+
+
+// c05OriginContainsFunc: the origin predicate written with the library's search:
+// rejected := slices.ContainsFunc(RejectOriginDomains, func(pattern string) bool { return
+// MatchWithWildcards(pattern, lowered) }); return !rejected.
+func (c *Ctx) c05OriginContainsFunc(fn *ssa.Function, low *ssa.Call) (why string, site string, found bool) {
+	p := c.P
+	var cf *ssa.Call
+	eng.EachInstr(fn, func(in ssa.Instruction) {
+		if call, ok := in.(*ssa.Call); ok && strings.HasPrefix(eng.CalleeName(call.Common()), "slices.ContainsFunc") && len(call.Call.Args) == 2 {
+			cf = call
+		}
+	})
+	if cf == nil {
+		return "", "", false
+	}
+	site = p.InstrPos(cf)
+	cl, _, isFn := eng.FuncValueOf(cf.Call.Args[1])
+	if !isFn || cl == nil || len(cl.Blocks) == 0 || len(cl.Params) != 1 {
+		return "the function handed to slices.ContainsFunc cannot be examined", site, true
+	}
+	var probs []string
+	if f := eng.LoadedField(cf.Call.Args[0]); f == nil || f.Name() != "RejectOriginDomains" {
+		probs = append(probs, "the list searched is not RejectOriginDomains")
+	}
+	var match *ssa.Call
+	eng.EachInstr(cl, func(in ssa.Instruction) {
+		if call, ok := in.(*ssa.Call); ok {
+			if g := eng.StaticCallee(call.Common()); g != nil && g.Name() == "MatchWithWildcards" {
+				match = call
+			}
+		}
+	})
+	if match == nil {
+		return "no wildcard match against RejectOriginDomains", site, true
+	}
+	if match.Call.Args[0] != ssa.Value(cl.Params[0]) {
+		probs = append(probs, "first argument (pattern) of MatchWithWildcards is not the list element handed to the callback: pattern and subject are swapped")
+	}
+	// subject: the lowered domain — the ToLower result itself, or the domain variable's cell
+	// read through the closure (the cell holds the lowered value by then: C05/LOWER/arg)
+	subjOK := false
+	if low != nil {
+		sv := match.Call.Args[1]
+		if sv == ssa.Value(low) {
+			subjOK = true
+		}
+		if u, ok := sv.(*ssa.UnOp); ok {
+			if fv, ok := u.X.(*ssa.FreeVar); ok {
+				if mc, ok := cf.Call.Args[1].(*ssa.MakeClosure); ok {
+					for i, b := range mc.Bindings {
+						if i < len(cl.FreeVars) && cl.FreeVars[i] == fv {
+							if ld, ok := low.Call.Args[0].(*ssa.UnOp); ok && ld.X == b {
+								subjOK = true
+							}
+						}
+					}
+				}
+			}
+		}
+		// the lowered value captured by value
+		if fv, ok := sv.(*ssa.FreeVar); ok {
+			if mc, ok := cf.Call.Args[1].(*ssa.MakeClosure); ok {
+				for i, b := range mc.Bindings {
+					if i < len(cl.FreeVars) && cl.FreeVars[i] == fv && b == ssa.Value(low) {
+						subjOK = true
+					}
+				}
+			}
+		}
+	}
+	if !subjOK {
+		probs = append(probs, "second argument (subject) of MatchWithWildcards is not the lower-cased domain: pattern and subject are swapped or the case is not folded")
+	}
+	// the callback answers with the match result
+	eng.EachInstr(cl, func(in ssa.Instruction) {
+		ret, ok := in.(*ssa.Return)
+		if !ok {
+			return
+		}
+		if res := eng.ReturnResults(ret); len(res) != 1 || res[0] != ssa.Value(match) {
+			probs = append(probs, "the callback does not answer with the match result at "+p.InstrPos(ret))
+		}
+	})
+	// the predicate answers with the negation of the search
+	eng.EachInstr(fn, func(in ssa.Instruction) {
+		ret, ok := in.(*ssa.Return)
+		if !ok || len(eng.ReturnResults(ret)) != 1 {
+			return
+		}
+		rv := eng.ReturnResults(ret)[0]
+		if u, ok := rv.(*ssa.UnOp); ok && u.Op == token.NOT && u.X == ssa.Value(cf) {
+			return
+		}
+		if v, isC := eng.ConstBool(rv); isC {
+			if kv, known := eng.KnownBool(cf, ret.Block()); known && kv != v {
+				return
+			}
+		}
+		probs = append(probs, "return at "+p.InstrPos(ret)+" is not the negation of the search's answer")
+	})
+	return strings.Join(probs, "; "), site, true
 }
